@@ -19,6 +19,7 @@ import vlib
 from vlib import enc
 
 KF_RVALUE = "rvalue-reference-rendered-as-two-references"
+KF_CTORLIKE = "class-type-before-parenthesis-in-class-scope"
 
 HDR = r'''#pragma once
 #include <string>
@@ -242,6 +243,9 @@ def run(ctx):
             continue
         b = parse(k, itext)
         ctx.hist("roundtrip:" + ("ok" if b is not None and canon(a) == canon(b) else "differs"))
+        if b is None and k.startswith("class:") and re.search(r"\b(?:\w+::)*%s \(" % re.escape(k.split(":", 1)[1]), itext) and ctx.is_known(KF_CTORLIKE):
+            ctx.known_finding(KF_CTORLIKE, "")
+            continue
         if b is None or canon(a) != canon(b):
             ctx.violation("failing-input", {"what": "re-parsing Shroud's own rendering does not give the same declaration",
                                             "input": {"scope": k, "decl": d, "rendering": itext,
